@@ -202,10 +202,10 @@ def cli_stage(res: Result, exprs: Tuple[str, ...], k, tmpdb: str) -> None:
     keff = 0 if k is None else k
     case = {"values": list(exprs), "k": k, "stage": "cli"}
     try:
-        rc = cli.main(["-c", "mcfg:CONFIG", "stub", "vfx.shapes"], out, err)
+        rc = cli.main(["-c", "mcfg:fresh()", "stub", "vfx.shapes"], out, err)
         # the same with the global option that switches rewriting off: the size limit still applies
         out2, err2 = io.StringIO(), io.StringIO()
-        rc2 = cli.main(["-c", "mcfg:CONFIG", "--disable-type-rewriting", "stub", "vfx.shapes"], out2, err2)
+        rc2 = cli.main(["-c", "mcfg:fresh()", "--disable-type-rewriting", "stub", "vfx.shapes"], out2, err2)
         why2 = check_stub_text(out2.getvalue(), keff) if rc2 == 0 else "exception|rc=%r" % (rc2,)
         if why2:
             res.violate(Violation(ID, "cli", "disable-type-rewriting:" + why2.partition("|")[0], case, f"cli --disable-type-rewriting: {why2.partition('|')[2]} :: {out2.getvalue()[:300]}"))
